@@ -120,7 +120,9 @@ def invariant_problems(c: Instance):
     if sorted(s['inputs']) != want_inputs:
         probs.append(f'input list {s["inputs"]} != INPUT gates {want_inputs}')
     for n, (bi, bg, bo) in s['blocks'].items():
-        for l in bi + bg + bo:
+        # (C02: "every block's member and input labels name existing gates" -- the declared outputs of a block are not part of
+        # the statement: a block may outlive a non-member gate it lists as an output)
+        for l in bi + bg:
             if l not in gates:
                 probs.append(f'block {n!r} names missing gate {l!r}')
     return probs
